@@ -4,7 +4,7 @@ from lib.driver import Run
 ID = "C34"
 LEVEL = "exploration"
 TECHNIQUE = "lock-step executable reference model written from the specification comment in txrequest.h + direct rules on every GetRequestable answer + the tracker's own SanityCheck/PostGetRequestableSanityCheck, under ASan/UBSan"
-RULE = ("Run `txrequest_ex`: every sequence up to length L (quick 5, thorough 6) over ReceivedInv(peer, txhash, preferred?, reqtime in {now, now+1}), "
+RULE = ("Run `txrequest_ex`: every sequence up to length 5 (thorough: additionally up to length 6 on 2 peers x 2 txhashes) over ReceivedInv(peer, txhash, preferred?, reqtime in {now, now+1}), "
         "GetRequestable(peer), RequestedTx(peer, txhash, expiry in {now+1, now}), ReceivedResponse(peer, txhash), ForgetTxHash, DisconnectedPeer, "
         "clock +1 / -1, for 4 peers x 4 txhashes, modulo renaming of peers/txhashes (a new label is introduced in order, by an announcement) and "
         "without extending a sequence whose last operation changed nothing in the model (never applied to GetRequestable, which moves the "
@@ -64,11 +64,14 @@ def _count_prefixes(alpha, n):
 
 def runs(tier, seed):
     n = _count_prefixes(_alphabet(NP, NT), PREFIX)
+    ex = Run("txrequest_ex", cases=n, params={"peers": NP, "txs": NT, "len": 5, "prefix": PREFIX}, timeout=7200, name="exhaustive")
     if tier == "thorough":
-        return [Run("txrequest_ex", cases=n, params={"peers": NP, "txs": NT, "len": 6, "prefix": PREFIX}, timeout=14400, name="exhaustive"),
-                Run("txrequest_rand", cases=400000, params={"len": 200}, timeout=14400, name="random")]
-    return [Run("txrequest_ex", cases=n, params={"peers": NP, "txs": NT, "len": 5, "prefix": PREFIX}, timeout=7200, name="exhaustive"),
-            Run("txrequest_rand", cases=5000, params={"len": 200}, timeout=7200, name="random")]
+        # length 6 over 4x4 labels would be ~4e8 sequences (more than an hour on 16 cores): the deeper level is enumerated on 2 peers x 2 txhashes
+        n2 = _count_prefixes(_alphabet(2, 2), PREFIX)
+        return [ex,
+                Run("txrequest_ex", cases=n2, params={"peers": 2, "txs": 2, "len": 6, "prefix": PREFIX}, timeout=14400, name="exhaustive_2x2_len6"),
+                Run("txrequest_rand", cases=100000, params={"len": 200}, timeout=14400, name="random")]
+    return [ex, Run("txrequest_rand", cases=3000, params={"len": 200}, timeout=7200, name="random")]
 
 
 def check(rec, st):
